@@ -19,6 +19,92 @@ from sim.common import REPO, HarnessError
 PKG = os.path.realpath(os.path.join(REPO, "statham")) + os.sep
 STEP_CAP = 60000
 
+# --------------------------------------------------------------------------
+# cooperative locks: a lock created through threading.Lock / threading.RLock
+# after install_coop_locks() (i.e. by the library or anything it imports)
+# never blocks the thread that holds the baton: a contended acquire hands the
+# baton to another thread and retries.  Without this, a correct change that
+# adds a lock would deadlock the simulator, and a wrong one (lock-order
+# inversion) could not be told from it.
+# --------------------------------------------------------------------------
+ACTIVE = None  # the Scheduler currently running threads, if any
+_REAL_LOCK = threading.Lock
+_REAL_RLOCK = threading.RLock
+
+
+class SchedulerDeadlock(Exception):
+    """Every unfinished thread is blocked on a lock."""
+
+
+def _coop_acquire(real, blocking, timeout):
+    sch = ACTIVE
+    if sch is None or not blocking:
+        return real.acquire(blocking, timeout)
+    tid = sch.ident2tid.get(threading.get_ident())
+    if tid is None:
+        return real.acquire(blocking, timeout)
+    while not real.acquire(False):
+        sch.yield_blocked(tid)
+    sch.blocked_spins = 0
+    return True
+
+
+class CoopLock:
+    def __init__(self):
+        self._real = _REAL_LOCK()
+
+    def acquire(self, blocking=True, timeout=-1):
+        return _coop_acquire(self._real, blocking, timeout)
+
+    __enter__ = acquire
+
+    def release(self):
+        self._real.release()
+
+    def __exit__(self, *exc):
+        self._real.release()
+
+    def locked(self):
+        return self._real.locked()
+
+    def _at_fork_reinit(self):
+        self._real._at_fork_reinit()  # pylint: disable=protected-access
+
+
+class CoopRLock:
+    def __init__(self):
+        self._real = _REAL_RLOCK()
+
+    def acquire(self, blocking=True, timeout=-1):
+        return _coop_acquire(self._real, blocking, timeout)
+
+    __enter__ = acquire
+
+    def release(self):
+        self._real.release()
+
+    def __exit__(self, *exc):
+        self._real.release()
+
+    def _at_fork_reinit(self):
+        self._real._at_fork_reinit()  # pylint: disable=protected-access
+
+    def _is_owned(self):
+        return self._real._is_owned()  # pylint: disable=protected-access
+
+    def _release_save(self):
+        return self._real._release_save()  # pylint: disable=protected-access
+
+    def _acquire_restore(self, state):
+        return self._real._acquire_restore(state)  # pylint: disable=protected-access
+
+
+def install_coop_locks():
+    """Must run before the library (and what it imports) is imported."""
+    if threading.Lock is not CoopLock:
+        threading.Lock = CoopLock
+        threading.RLock = CoopRLock
+
 
 def write_sites():
     """(relative file, line) of statements in the package that store into an
@@ -116,6 +202,14 @@ def package_code_objects():
     return list(seen.values())
 
 
+def _real_semaphore():
+    """The scheduler's own semaphores must be built on real locks."""
+    sem = threading.Semaphore.__new__(threading.Semaphore)
+    sem._cond = threading.Condition(_REAL_LOCK())  # pylint: disable=protected-access
+    sem._value = 0  # pylint: disable=protected-access
+    return sem
+
+
 class Policy:
     """Decides, at a scheduling point, which thread runs next."""
 
@@ -167,8 +261,8 @@ class Scheduler:
         self.seg_index = 0
         self.seg_left = 0
         self.opcodes = opcodes
-        self.sems = [threading.Semaphore(0) for _ in range(n_threads)]
-        self.main_sem = threading.Semaphore(0)
+        self.sems = [_real_semaphore() for _ in range(n_threads)]
+        self.main_sem = _real_semaphore()
         self.done = [False] * n_threads
         self.started = [False] * n_threads
         self.step = 0
@@ -185,6 +279,10 @@ class Scheduler:
         self.switch_sites = {}
         self.keep_sites = keep_sites
         self._files = {}
+        self.ident2tid = {}
+        self.blocked_spins = 0
+        self.lock_yields = 0
+        self.deadlock = False
 
     # -- bookkeeping -------------------------------------------------------
     def runnable(self):
@@ -240,6 +338,7 @@ class Scheduler:
     # -- the scheduling point -----------------------------------------------
     def point(self, tid, frame, event):
         self.step += 1
+        self.blocked_spins = 0
         code = frame.f_code
         rel = self._rel(code.co_filename)
         line = frame.f_lineno or 0
@@ -274,6 +373,24 @@ class Scheduler:
             self.current = tid
         else:
             self._account(tid)
+
+    def yield_blocked(self, tid):
+        """`tid` holds the baton but is blocked on a lock another thread owns:
+        hand the baton to the next unfinished thread (cyclic order - a pure
+        function of the state, identical when recording and replaying) and
+        return when it comes back."""
+        self.lock_yields += 1
+        self.blocked_spins += 1
+        others = [t for t in range(self.n) if t != tid and not self.done[t]]
+        if not others or self.blocked_spins > 6 * self.n + 6:
+            self.deadlock = True
+            raise SchedulerDeadlock(f"thread {tid} blocked on a lock nobody can release")
+        nxt = min(others, key=lambda t: (t - tid) % self.n)
+        self.hash.update(f"blocked{tid}->{nxt};".encode())
+        self.current = nxt
+        self.sems[nxt].release()
+        self.sems[tid].acquire()
+        self.current = tid
 
     def _finish(self, tid):
         self.done[tid] = True
@@ -317,20 +434,20 @@ class Scheduler:
     def _worker(self, tid, fn):
         self.sems[tid].acquire()
         self.started[tid] = True
-        if self.opcodes:
-            self.ident2tid[threading.get_ident()] = tid
-        else:
+        self.ident2tid[threading.get_ident()] = tid
+        if not self.opcodes:
             sys.settrace(self._tracer(tid))
         try:
             fn()
+        except SchedulerDeadlock:
+            pass  # reported through self.deadlock
         except BaseException as exc:  # pylint: disable=broad-except
             self.errors.append((tid, repr(exc)))
         finally:
-            if self.opcodes:
-                self.ident2tid.pop(threading.get_ident(), None)
-            else:
+            if not self.opcodes:
                 sys.settrace(None)
             self._finish(tid)
+            self.ident2tid.pop(threading.get_ident(), None)
 
     # -- opcode granularity: sys.monitoring with up-front instrumentation ----
     # (sys.settrace's f_trace_opcodes only takes effect after the code object
@@ -343,7 +460,6 @@ class Scheduler:
         if mon.get_tool(tool) is not None:
             raise HarnessError("sys.monitoring debugger tool id already in use")
         mon.use_tool_id(tool, "statham-sim")
-        self.ident2tid = {}
         events = mon.events
         mask = (
             events.PY_START | events.PY_RESUME | events.LINE
@@ -387,13 +503,18 @@ class Scheduler:
         mon.free_tool_id(tool)
 
     def run(self, fns, first, timeout=120):
-        if self.opcodes:
-            self._monitoring_on()
-            try:
-                return self._run(fns, first, timeout)
-            finally:
-                self._monitoring_off()
-        return self._run(fns, first, timeout)
+        global ACTIVE
+        ACTIVE = self
+        try:
+            if self.opcodes:
+                self._monitoring_on()
+                try:
+                    return self._run(fns, first, timeout)
+                finally:
+                    self._monitoring_off()
+            return self._run(fns, first, timeout)
+        finally:
+            ACTIVE = None
 
     def _run(self, fns, first, timeout=120):
         threads = [
